@@ -257,8 +257,79 @@ def check_C04(tier):
     return ck.finish()
 
 
+def od_conformance(ck, tier):
+    """The phased generator as a state machine: MoveGenOD.tla model-checked over abstract moves, and runs of the real
+    generator (state after every call, through the hook) validated against it - MoveGenODTrace.tla."""
+    import shutil
+    quick = tier == "quick"
+    cfg = ("SPECIFICATION Spec\nCONSTANTS\n  Moves = {1, 2, 3}\n  WithEvasion = TRUE\n"
+           "INVARIANTS TypeOK BatchSane NoneIsFinal Exact PvFirst EvasionSound\nPROPERTIES Progress\nCHECK_DEADLOCK FALSE\n")
+    a = vlib.tlc("MoveGenOD", cfg, workers=8, tag="od-mc", keep_out=False)
+    ck.add_tlc(a)
+    tree = shared(tier)["tree"]
+    run = vlib.scratch("od")
+    try:
+        tf, xf = os.path.join(run, "trace.ndjson"), os.path.join(run, "index.json")
+        res = vlib.run_driver(["od-record", "-obs", vlib.art_out(tree), "-trace", tf, "-index", xf, "-every", 60 if quick else 12,
+                               "-max", 2500 if quick else 40000, "-seed", SEED, "-out", os.path.join(run, "res.json")], cwd=run)
+        ck.add_result(res)
+        index = json.load(open(xf))
+        trace = open(tf).read()
+    finally:
+        shutil.rmtree(run, ignore_errors=True)
+    for k, v in res["counters"].items():
+        ck.cov["counters"][k] = v
+    nlines = res["counters"].get("C08.od_lines", 0)
+    tcfg = ('SPECIFICATION TSpec\nCONSTANTS\n  Moves = {1}\n  WithEvasion = FALSE\n  TraceFile = "trace.ndjson"\n'
+            "CONSTRAINT Mark\nINVARIANTS TypeOK PropsReport\nPOSTCONDITION Report\nCHECK_DEADLOCK FALSE\n")
+    art = vlib.tlc("MoveGenODTrace", tcfg, files={"trace.ndjson": trace}, workers=1, tag="od-trace", cache=False, heap="6g", timeout=3600,
+                   env_opts=["-Dtlc2.tool.queue.IStateQueue=StateDeque"], expect_ok=False)
+    st = vlib.art_stats(art)
+    reached = None
+    props = []
+    for l in vlib.tlc_lines(art, '<<"OD-'):
+        f = [x.strip(' "<>\n') for x in l.split(",")]
+        if f[0] == "OD-VERDICT":
+            reached = int(f[1])
+        elif f[0] == "OD-PROP":
+            props.append((f[1], int(f[2])))
+    shutil.rmtree(art, ignore_errors=True)
+    if reached is None:
+        raise Inconclusive("MoveGenODTrace gave no verdict: %s" % st.get("error"))
+    ck.cov["states"] += st.get("distinct_states", 0)
+    ck.cov["transitions"] += st.get("states_generated", 0)
+
+    def run_of(line):
+        cand = [x for x in index if x["line"] <= line]
+        return cand[-1] if cand else index[0]
+
+    def disc(kind, sig, x, detail):
+        ck.discs.append({"prop": "C08", "kind": kind, "sig": sig, "fen": x["fen"], "detail": detail, "replay": {"run": x}})
+        key = "C08|%s|%s" % (kind, sig)
+        ck.disc_count[key] = ck.disc_count.get(key, 0) + 1
+    if reached <= nlines:
+        x = run_of(reached)
+        disc("phased-generator-run-not-a-behaviour-of-MoveGenOD", "od-trace/%s%s" % (x["mode"], "/evasion" if x["evasion"] else ""), x,
+             {"trace_line": reached, "call_in_run": reached - x["line"], "event": json.loads(trace.splitlines()[reached - 1]),
+              "note": "the stage machine cannot produce this returned move / stage / take index / batch length / pushed flag"})
+    seenp = set()
+    for name, line in props:
+        x = run_of(line - 1)
+        if (name, x["line"]) in seenp:
+            continue
+        seenp.add((name, x["line"]))
+        disc("phased-generator-property-" + name, "od-prop/%s/%s%s" % (name, x["mode"], "/evasion" if x["evasion"] else ""), x,
+             {"property": name, "note": "violated on a real run (inputs from ChessRules!GenClass)"})
+    ck.cov["counters"]["C08.od_lines_validated"] = min(reached - 1, nlines)
+    ck.cov["traces_validated_against_impl"] += res["counters"].get("C08.od_runs", 0) if reached > nlines else 0
+    ck.cov["evaluations"] += min(reached - 1, nlines)
+
+
 def check_C08(tier):
-    return std_chess_check("C08", tier, ["tree"]).finish()
+    ck = std_chess_check("C08", tier, ["tree"], extra=lambda ck, res: od_conformance(ck, tier))
+    ck.cov["rule"] += ("; the phased generator's stage machine MoveGenOD.tla model-checked (all inputs over 3 abstract moves) and real runs "
+                       "(every call with stage / take index / batch length / pushed flag) validated against it")
+    return ck.finish()
 
 
 def check_C09(tier):
